@@ -340,7 +340,8 @@ func genValue(r *core.RNG) any {
 	case 4:
 		return []any{"a", jsonInt(1), map[string]any{"z": nil}}
 	default:
-		return "ünïcode ✓"
+		// characters on which JSON encoders / escapers disagree
+		return core.Pick(r, []string{"ünïcode ✓", "line\u2028sep\u2029", "<script>&amp;</script>", "del\u007f", "nul\u0000byte", "\U0001F600\uFB33", "tab\tquote\"back\\slash/", "\ufeffbom"})
 	}
 }
 
